@@ -713,10 +713,13 @@ def get_referent_name(random_reference):
     """What does this random_reference refer to?"""
     args, kwargs = random_reference.args, random_reference.kwargs
     assert not (args and kwargs)
+    target = None
     if args:
-        ret = args[0].definition
+        target = args[0]
     elif kwargs:
-        ret = kwargs["to"].definition
+        target = kwargs.get("to")
+    # only a SimpleValue has a definition: function calls and nested objects do not name a table
+    ret = getattr(target, "definition", None)
     if not isinstance(ret, str):
         raise DataGenSyntaxError(
             f"random_reference should only refer to a name, not {ret}"
